@@ -145,6 +145,9 @@ func (e *Exec) step(st *State, in ssa.Instruction, b *ssa.BasicBlock, idx int) b
 		e.storeTo(st, loc, v)
 		// at store: arg0 is the address stored through, arg1 the value stored
 		e.atAnchor(st, x, []Val{{T: []string{addr.T[0]}, Typ: x.Addr.Type()}, v}, nil)
+		if id, ok := fr.ordinals[x]; ok && id.kind == "store" && id.target != "" {
+			st.counts["store:"+id.target]++
+		}
 	case *ssa.Call:
 		return e.call(st, x, &x.Call, b, idx)
 	case *ssa.Defer:
